@@ -148,7 +148,11 @@ func solveAll(dir string, results []*FuncResult, timeoutS int, par int) {
 				return
 			}
 			j.o.File = file
-			v, s, out, t := race(file, timeoutS, j.o.Concrete)
+			to := timeoutS
+			if j.o.ExpectSat && to > 8 {
+				to = 8
+			}
+			v, s, out, t := race(file, to, j.o.Concrete)
 			j.o.Verdict, j.o.Solver, j.o.Time = v, s, t
 			if v != "unsat" {
 				j.o.Output = truncate(out, 20000)
